@@ -179,7 +179,10 @@ fn apply(m: &Membership, model: &mut Model, op: &Op, trace: &mut Vec<u8>) {
 pub fn scenario() {
     let mut rng = shuttle::rand::thread_rng();
     let m = Arc::new(Membership::new(7, SELF, Discovery::Static(vec![])));
-    if rng.gen_range(0..3u32) != 0 {
+    let sequential = rng.gen_range(0..3u32) != 0;
+    // the first execution of a scheduler batch is concurrent (PCT needs it to size itself)
+    let first = crate::drive::BATCH_START.swap(false, std::sync::atomic::Ordering::SeqCst);
+    if sequential && !first {
         // sequential history against the model
         let n = 1 + rng.gen_range(0..40usize);
         let mut model = Model { peers: BTreeMap::new(), resolved: false, last_generation: 0 };
